@@ -286,6 +286,9 @@ theorem rpeRun_values_are_rpeCore_of_selected_pairs {o : RpeOpts} {P : Params} {
   obtain ⟨pairs, hp, h⟩ := (bind_ok_iff _ _ _).mp h
   obtain ⟨r, hr, h⟩ := (bind_ok_iff _ _ _).mp h
   obtain ⟨u, _, h⟩ := (bind_ok_iff _ _ _).mp h
+  simp only at h
+  split at h
+  · cases h
   injection h with h; subst h
   obtain ⟨m1, m2⟩ := selectPairs_mem hsel
   obtain ⟨g1, g2, l1, l2⟩ := geometry_ok hg
@@ -309,23 +312,32 @@ theorem rpeRun_refusals (o : RpeOpts) (P : Params) (ref est : Traj) (e : RunErr)
             ∃ pairs, selectIdPairs o P g.1 g.2 = .ok pairs ∧
               (liftMetric (rpe o.common.rel pairs g.1 g.2) = .error e ∨
                ∃ r, liftMetric (rpe o.common.rel pairs g.1 g.2) = .ok r ∧
-                 unitStep o.common.rel o.common.changeUnit = .error e))) := by
+                 (unitStep o.common.rel o.common.changeUnit = .error e ∨
+                  ((∃ u, unitStep o.common.rel o.common.changeUnit = .ok u) ∧ r.values.isEmpty = true ∧
+                    e = .valueError))))) := by
   unfold rpeRun
   simp only [bind_error_iff]
   constructor
-  · rintro (h | ⟨sel, hs, h | ⟨g, hg, h | ⟨ps, hp, h | ⟨r, hr, h | ⟨u, _, h⟩⟩⟩⟩⟩)
-    · exact Or.inl h
-    · exact Or.inr ⟨sel, hs, Or.inl h⟩
-    · exact Or.inr ⟨sel, hs, Or.inr ⟨g, hg, Or.inl h⟩⟩
-    · exact Or.inr ⟨sel, hs, Or.inr ⟨g, hg, Or.inr ⟨ps, hp, Or.inl h⟩⟩⟩
-    · exact Or.inr ⟨sel, hs, Or.inr ⟨g, hg, Or.inr ⟨ps, hp, Or.inr ⟨r, hr, h⟩⟩⟩⟩
-    · cases h
-  · rintro (h | ⟨sel, hs, h | ⟨g, hg, h | ⟨ps, hp, h | ⟨r, hr, h⟩⟩⟩⟩)
+  · rintro (h | ⟨sel, hs, h | ⟨g, hg, h | ⟨ps, hp, h | ⟨r, hr, h | ⟨u, hu, h⟩⟩⟩⟩⟩)
     · exact Or.inl h
     · exact Or.inr ⟨sel, hs, Or.inl h⟩
     · exact Or.inr ⟨sel, hs, Or.inr ⟨g, hg, Or.inl h⟩⟩
     · exact Or.inr ⟨sel, hs, Or.inr ⟨g, hg, Or.inr ⟨ps, hp, Or.inl h⟩⟩⟩
     · exact Or.inr ⟨sel, hs, Or.inr ⟨g, hg, Or.inr ⟨ps, hp, Or.inr ⟨r, hr, Or.inl h⟩⟩⟩⟩
+    · split at h
+      · next he =>
+        injection h with h
+        exact Or.inr ⟨sel, hs, Or.inr ⟨g, hg, Or.inr ⟨ps, hp, Or.inr ⟨r, hr, Or.inr ⟨⟨u, hu⟩, he, h.symm⟩⟩⟩⟩⟩
+      · cases h
+  · rintro (h | ⟨sel, hs, h | ⟨g, hg, h | ⟨ps, hp, h | ⟨r, hr, h | ⟨⟨u, hu⟩, he, rfl⟩⟩⟩⟩⟩)
+    · exact Or.inl h
+    · exact Or.inr ⟨sel, hs, Or.inl h⟩
+    · exact Or.inr ⟨sel, hs, Or.inr ⟨g, hg, Or.inl h⟩⟩
+    · exact Or.inr ⟨sel, hs, Or.inr ⟨g, hg, Or.inr ⟨ps, hp, Or.inl h⟩⟩⟩
+    · exact Or.inr ⟨sel, hs, Or.inr ⟨g, hg, Or.inr ⟨ps, hp, Or.inr ⟨r, hr, Or.inl h⟩⟩⟩⟩
+    · refine Or.inr ⟨sel, hs, Or.inr ⟨g, hg, Or.inr ⟨ps, hp, Or.inr ⟨r, hr, Or.inr ⟨u, hu, ?_⟩⟩⟩⟩⟩
+      show (if r.values.isEmpty = true then _ else _) = _
+      rw [if_pos he]
 
 open Pipeline in
 /-- an empty pair selection (C10: `FilterException`), a negative or non-integral frame delta, and unequal
@@ -376,6 +388,10 @@ example : Pipeline.rpeRun runOpts runPar runRef runEst
     = .ok ⟨[.sqrtRatio 25 100, .sqrtRatio 144 144], none, [1, 3], [(0, 1), (2, 3)], [(0, 1), (2, 3)], [101/100, 301/100]⟩ := by
   decide +kernel
 example : Pipeline.rpeRun { runOpts with delta := 7 } runPar runRef runEst = .error .filter := by decide +kernel
+/-- all reference distances of the chosen pairs zero (pair (1,2) only): nothing is left, evo_rpe ends in numpy's
+`ValueError` (statistics of an empty array) instead of storing a result -/
+example : Pipeline.rpeRun runOpts { runPar with pairs := ⟨[5], [1], #[]⟩ } ⟨[1, 2], [q1, q2]⟩ ⟨[101/100, 201/100], [p1, p2]⟩
+    = .error .valueError := by decide +kernel
 example : Pipeline.rpeRun { runOpts with delta := 3/2 } runPar runRef runEst = .error .metrics := by decide +kernel
 
 end Evo.C02
